@@ -924,7 +924,9 @@ def kernel_check(ctx, pid, runs, preds, rule, extra_assumptions=(), corpus=(), e
     ctx.rule = rule
     ctx.assumptions = [
         "harness doubles in the check process only: Printer.action recorder, runner proxies, store.changeStamp "
-        "wrapper (tick count, tick-limit KeyboardInterrupt); kernel language excludes clones/rear/raze, markers, "
+        "wrapper (tick count, tick-limit KeyboardInterrupt), attempt oracle (wrappers that only record: Transiter / "
+        "Suspender / enterAll / exitAll / segue / Frame.enter / Frame.recur / markers / done / done-needs); kernel "
+        "language excludes clones/rear/raze, "
         "loggers/servers, fiats in benter context; generated programs never list one original auxiliary twice in "
         "one outline / family nor as plain and conditional auxiliary of the same frame (known findings)",
     ] + list(extra_assumptions)
